@@ -487,7 +487,13 @@ class Program:
 
 
 def norm(node):
-    """normalised text of a construct (used as finding key; independent of line numbers and formatting)"""
+    """normalised text of a construct (used as finding key; independent of line numbers, formatting and of the suffixes given
+    to the locals of expanded helpers)"""
+    import re as _re
+    return _re.sub(r'__h\d+\b', '', _norm(node))
+
+
+def _norm(node):
     if isinstance(node, str):
         return ' '.join(node.split())
     if isinstance(node, (ast.If, ast.While)):
